@@ -163,6 +163,12 @@ class Engine:
             v = v.lower()
             return st.alloc(Dict(k, v, fresh(name + '_dom', z3.ArraySort(ks, B)),
                                  fresh(name + '_val', z3.ArraySort(ks, self.sort_of_kind(v)))))
+        if ty == 'TupD':
+            # a tuple of dicts (str -> dynamic value) held by value, e.g. per-id metadata after the cast to defaultdicts:
+            # sound as long as the entries are pairwise distinct objects, which the cast establishes
+            n = fresh(name + '_len', I)
+            st.assume(n >= 0)
+            return st.alloc(self.seq_of_dicts(st, name, n))
         if ty.startswith('Pair[') and ty.endswith(']'):
             # a tuple of fixed length with individually typed components
             parts, depth, cur = [], 0, ''
@@ -187,6 +193,16 @@ class Engine:
             if v is not None:
                 return v
         raise EngineError('unknown contract type %r for %s' % (ty, name))
+
+    def seq_of_dicts(self, st, name, n, idom=None, val=None):
+        V = self.world.Val
+        dom = fresh(name + '_pos', z3.ArraySort(I, B))
+        k = fresh('k', I)
+        st.assume(z3.ForAll([k], dom[k] == z3.And(0 <= k, k < n), patterns=[dom[k]]))
+        return Dict('int', 'dict', dom,
+                    val if val is not None else fresh(name + '_val', z3.ArraySort(I, z3.ArraySort(Str, V))),
+                    idom=idom if idom is not None else fresh(name + '_idom', z3.ArraySort(I, z3.ArraySort(Str, B))),
+                    inner=('str', 'val'), seq=n)
 
     def sort_of_kind(self, k):
         if k in SORTS:
@@ -264,6 +280,11 @@ class Engine:
                 raise EngineError('truthiness of dict without size')
             if isinstance(n, Obj):
                 return z3.BoolVal(True)
+        if k in ('inner', 'dictval'):
+            # a dict held by value is true when it has a key
+            d = self.as_dict(st, v)
+            kk = fresh('k', self.sort_of_kind(d[0]))
+            return z3.Exists([kk], d[2][kk], patterns=[d[2][kk]])
         if k == 'opt':
             return z3.And(z3.Not(v.is_none), self.truth(st, v.val))
         if k in ('fn', 'cls', 'exc', 'mod'):
@@ -497,6 +518,10 @@ class Engine:
         if cont.kind == 'range':
             xi = to_int(x)
             return z3.And(cont.lo <= xi, xi < cont.hi)
+        if cont.kind in ('int', 'real', 'bool', 'none'):
+            # spec expressions are total (as indexing is): membership in a scalar is some boolean, guarded by the
+            # contract's implications
+            return fresh('nomember', B)
         raise EngineError('membership test in %s' % cont.kind)
 
     # ------------------------------------------------------------------
@@ -793,6 +818,7 @@ class Engine:
             if isinstance(n, Dict):
                 d = VDictVal(n.kkind, n.vkind, n.dom, n.val)
                 d.idom, d.inner = n.idom, n.inner
+                d.seq, d.nones = n.seq, n.nones
                 return d
             # an object: only its identity is meaningful outside its own state
             o = VRef(v.nid)
@@ -818,8 +844,12 @@ class Engine:
             n = st.node(v)
             if isinstance(n, Arr):
                 return VInt(n.n)
+            if isinstance(n, Dict) and n.seq is not None:
+                return VInt(n.seq)
             if isinstance(n, Dict) and n.nkeys is not None:
                 return VInt(n.nkeys)
+        if v.kind == 'dictval' and getattr(v, 'seq', None) is not None:
+            return VInt(v.seq)
         if v.kind == 'str':
             return VInt(smt.len_s(v.term))
         if v.kind in ('arrval', 'arrT'):
